@@ -18,6 +18,17 @@ impl Comment {
             buf.add_one("\n", "");
             return;
         }
+        if buf.format().is_compressed() {
+            // Only preserved comments are kept, without line breaks.
+            if self.0.starts_with('!') {
+                let text =
+                    self.0.lines().map(str::trim).collect::<Vec<_>>();
+                buf.add_str("/*");
+                buf.add_str(&text.join(" "));
+                buf.add_str("*/");
+            }
+            return;
+        }
         let indent = buf.indent_level();
         let existing = self
             .0
